@@ -40,7 +40,7 @@ Proof. cbn. unfold notes. now rewrite notify_snapshot, map_map. Qed.
 Lemma complete_subs s o : subs (complete s o) = after_notify (subs s).
 Proof. reflexivity. Qed.
 
-Definition plain (k : cbkind) : bool := match k with CbOk | CbRaise => true | _ => false end.
+Definition plain (k : cbkind) : bool := match k with CbOk | CbRaise _ => true | _ => false end.
 
 (* subscribers that only return or raise leave the subscription list as it was *)
 Lemma notify_plain snap : forall live,
@@ -211,8 +211,130 @@ Proof. split; reflexivity. Qed.
    is called once, 4 is not; the next completion (after reset_unsafe) goes over what they left *)
 Example reentrant_nonvacuous :
   run_case KLazy [PRet (VInt 42); PRaise 9] (Ok VNone)
-    [OSubscribe 1 (CbUnsub 1); OSubscribe 2 CbOk; OSubscribe 3 (CbSeq (CbSub 4 CbRaise) (CbUnsub 2));
+    [OSubscribe 1 (CbUnsub 1); OSubscribe 2 CbOk; OSubscribe 3 (CbSeq (CbSub 4 (CbRaise XKey)) (CbUnsub 2));
      OValue; OReset; OError]
   = ([RUnit; RUnit; RUnit; RVal (VInt 42); RUnit; RErr 9],
      [(1, Ok (VInt 42)); (2, Ok (VInt 42)); (3, Ok (VInt 42)); (3, Err 9); (4, Err 9)], 2, [3; 4; 4]).
+Proof. reflexivity. Qed.
+
+(* ---- the CLASS of the Exception a subscriber raises does not matter ----
+   [recls f] relabels the class of every raise in a behaviour script (also in the scripts of the
+   subscribers it subscribes); [f] is arbitrary, e.g. "everything becomes AssertionError" or
+   "everything becomes the harness's own exception class".                                       *)
+Fixpoint recls (f : xcls -> xcls) (k : cbkind) : cbkind :=
+  match k with
+  | CbOk => CbOk
+  | CbRaise c => CbRaise (f c)
+  | CbUnsub t => CbUnsub t
+  | CbSub id k' => CbSub id (recls f k')
+  | CbSeq a b => CbSeq (recls f a) (recls f b)
+  end.
+Definition recls_sub (f : xcls -> xcls) (sb : sub) : sub := (fst sb, recls f (snd sb)).
+Definition recls_op (f : xcls -> xcls) (o : op) : op :=
+  match o with OSubscribe id k => OSubscribe id (recls f k) | _ => o end.
+Definition recls_state (f : xcls -> xcls) (s : fstate) : fstate :=
+  mk (fkind s) (prov s) (out s) (runs s) (map (recls_sub f) (subs s)) (log s).
+
+(* a raising subscriber does to the subscription list what a returning one does: nothing *)
+Lemma run_cb_raise c live : run_cb (CbRaise c) live = (live, true).
+Proof. reflexivity. Qed.
+
+(* unsubscribing somebody who is not registered is a raising subscriber of class ValueError *)
+Lemma run_cb_unsub_absent t live :
+  remove_first t live = None -> run_cb (CbUnsub t) live = run_cb (CbRaise XValue) live.
+Proof. intros H. cbn. now rewrite H. Qed.
+
+Lemma remove_first_recls f t l :
+  remove_first t (map (recls_sub f) l) = option_map (map (recls_sub f)) (remove_first t l).
+Proof.
+  induction l as [|[i k] r IH]; cbn; auto.
+  destruct (Z.eqb i t); auto. rewrite IH. destruct (remove_first t r); auto.
+Qed.
+
+Lemma run_cb_recls f k : forall live,
+  run_cb (recls f k) (map (recls_sub f) live) = (map (recls_sub f) (fst (run_cb k live)), snd (run_cb k live)).
+Proof.
+  induction k as [|c|t|id k IH|a IHa b IHb]; intros live; cbn; auto.
+  - rewrite remove_first_recls. destruct (remove_first t live); auto.
+  - rewrite map_app. reflexivity.
+  - rewrite IHa. destruct (run_cb a live) as [l1 r]. cbn. destruct r; auto.
+Qed.
+
+Lemma notify_recls f snap : forall live,
+  notify (map (recls_sub f) snap) (map (recls_sub f) live) =
+  (map (recls_sub f) (fst (notify snap live)), snd (notify snap live)).
+Proof.
+  induction snap as [|sb snap IH]; intros live; cbn; auto.
+  rewrite run_cb_recls. cbn. rewrite IH.
+  destruct (notify snap (fst (run_cb (snd sb) live))). reflexivity.
+Qed.
+
+Lemma complete_recls f s o : complete (recls_state f s) o = recls_state f (complete s o).
+Proof. unfold complete, recls_state. cbn. rewrite notify_recls. reflexivity. Qed.
+
+Lemma with_run_recls f s rest : with_run (recls_state f s) rest = recls_state f (with_run s rest).
+Proof. reflexivity. Qed.
+
+Lemma compute_recls f s :
+  compute (recls_state f s) = (recls_state f (fst (compute s)), snd (compute s)).
+Proof.
+  unfold compute. change (fkind (recls_state f s)) with (fkind s).
+  change (prov (recls_state f s)) with (prov s).
+  destruct (fkind s); auto; destruct (prov s) as [|[v|e|e] rest];
+    rewrite ?with_run_recls, ?complete_recls; reflexivity.
+Qed.
+
+Lemma read_recls f s rep :
+  read (recls_state f s) rep = (recls_state f (fst (read s rep)), snd (read s rep)).
+Proof.
+  unfold read. change (out (recls_state f s)) with (out s).
+  destruct (out s); auto. rewrite compute_recls. destruct (compute s) as [s' [e|]]; cbn; auto.
+  destruct (out s'); auto.
+Qed.
+
+(* one operation: the relabelled history is in the relabelled state and returned the same result *)
+Lemma step_recls f s o :
+  step (recls_state f s) (recls_op f o) = (recls_state f (fst (step s o)), snd (step s o)).
+Proof.
+  destruct o; cbn [step recls_op]; rewrite ?read_recls; auto;
+    change (out (recls_state f s)) with (out s); change (fkind (recls_state f s)) with (fkind s).
+  - destruct (out s); auto. now rewrite complete_recls.
+  - destruct (out s); auto. now rewrite complete_recls.
+  - destruct (sinking (fkind s)); auto. unfold recls_state. cbn. rewrite map_app. reflexivity.
+Qed.
+
+Lemma run_recls f ops : forall s,
+  run (recls_state f s) (map (recls_op f) ops) = (recls_state f (fst (run s ops)), snd (run s ops)).
+Proof.
+  induction ops as [|o ops IH]; intros s; cbn [run map]; auto.
+  rewrite step_recls. destruct (step s o) as [s1 r]. cbn [fst snd]. rewrite IH.
+  destruct (run s1 ops) as [s2 rs]. reflexivity.
+Qed.
+
+(* everything the correspondence compares - every op result, the callback log (who was called and
+   what outcome they saw), the run count, the ids registered at the end - is the same whatever
+   Exception classes the raising subscribers raise *)
+Lemma raise_class_irrelevant f k p o ops :
+  run_case k p o (map (recls_op f) ops) = run_case k p o ops.
+Proof.
+  unfold run_case.
+  assert (E : init k p o = recls_state f (init k p o)) by (destruct k; reflexivity).
+  rewrite E at 1. rewrite run_recls. destruct (run (init k p o) ops) as [s rs]. cbn.
+  rewrite map_map. reflexivity.
+Qed.
+
+(* two histories that differ only in the classes raised by their subscribers are indistinguishable *)
+Lemma same_shape_same_result k p o ops ops' :
+  map (recls_op (fun _ => XUser)) ops = map (recls_op (fun _ => XUser)) ops' ->
+  run_case k p o ops = run_case k p o ops'.
+Proof.
+  intros H. rewrite <- (raise_class_irrelevant (fun _ => XUser) k p o ops), H.
+  apply raise_class_irrelevant.
+Qed.
+
+(* non-vacuity: the asserting subscriber of the seeded scenario - first accessor on a lazy future *)
+Example raise_class_nonvacuous :
+  run_case KLazy [PRet (VInt 3)] (Ok VNone)
+    [OSubscribe 1 (CbRaise XAssertion); OSubscribe 2 CbOk; OValue; OError; OCall]
+  = ([RUnit; RUnit; RVal (VInt 3); RNoError; RVal (VInt 3)], [(1, Ok (VInt 3)); (2, Ok (VInt 3))], 1, [1; 2]).
 Proof. reflexivity. Qed.
